@@ -122,8 +122,7 @@ def build2(m):
     m.predicate('STACK_OK', ['ds', 'string'],
                 "forall(lambda i: DELIM_OK(ds[i]) and ds[i].end <= len(string) and "
                 "field(ds[i], '__has_open') == field(ds[i], '__has_close'), 0, len(ds)) and "
-                # stack entries are in source order and do not overlap (hence pairwise different objects)
-                "forall(lambda i, j: implies(i < j, ds[i].end <= ds[j].start), 0, len(ds), 0, len(ds))")
+                "forall(lambda i, j: implies(i < j, ds[i] != ds[j]), 0, len(ds), 0, len(ds))")
     m.predicate('CLOSER_AT', ['ds', 'p'], "EMPH(ds[p]) and ds[p].close")
     m.add(Contract(MOD + ':next_closer', [('curr_pos', TOpt(INT)), ('delimiters', TList(DL))], returns=TOpt(INT), pure=True,
                    requires=['is_none(curr_pos) or (0 <= some(curr_pos) and some(curr_pos) <= len(delimiters))',
@@ -164,6 +163,6 @@ def build2(m):
                        'and some(star_bottom) >= some(stack_bottom) and some(underscore_bottom) >= some(stack_bottom))',
                        'forall(lambda i: delimiters[i] == old(delimiters)[i], 0, (0 if is_none(stack_bottom) else some(stack_bottom) + 1))',
                    ])},
-                   prop=P, options={'tier': 'thorough'},
+                   prop=P, options={'tier': 'thorough', 'concat_axioms': True},
                    note='termination of loop#0 is not proved (lexicographic variant over a sum of heap fields); '
                         'index and attribute safety do not depend on it'))
